@@ -16,7 +16,7 @@ pub mod w4 {
       r1(v0, v0) <-- r0(v0), r1(((*v0) + 1), v0);
       r2(0, v0) <-- r1(v0, v1) if ((*v0) != 4) let v2 = ((*v1) + 0);
       r3(2, v1) <-- r2(v0, 0) if ((*v0) != 1), r1(v0, v1);
-      r4(((*v2) + 1), v3) <-- r3(v0, v1), r2(3, v2) if ((*v1) < 6) let v3 = ((*v1) + 0), if ((*v2) < 6);
+      r4(((*v2) + 1), v3) <-- r3(v0, v1), r2(3, v2) if ((*v1) < 6) let v3 = ((*v1) + 0), if ((*v2) < 6), if (v3 <= 6);
       r2(v0, v8) <-- if let Some(v9) = Some(1), r4(v0, v1), r4(v1, v9) let v8 = ((*v0) + 1);
       r3(v1, v2) <-- if let Some(v0) = Some(0), r3(v1, v2) if ((*v2) < 1);
       r2(1, 3);
@@ -110,17 +110,19 @@ pub mod w20 {
       relation r0(i64);
       relation r1(i64, i64);
       relation r2(i64, i64, i64);
-      relation r3(i64, i64);
-      relation r4(i64);
+      relation r3(i64);
+      relation r4(i64, i64);
+      relation r5(i64);
       r2(v1, v0, 3) <-- r1(v0, v1);
       r2(v2, v1, v3) <-- if let Some(v0) = Some(2), r2(v1, (v0 + 1), v2), r2(v3, v2, ((*v2) + 0));
-      r2(v0, v1, v2) <-- r1(v0, v1) if ((*v0) < 4), r1(v1, v2) if ((*v2) != (*v1));
       r2(v0, v1, v2) <-- r1(v0, v1), r1(((*v0) + 1), v2);
-      r2(v2, v2, v4) <-- if let Some(v0) = None::<i64>, r0(v1), r2(v2, v3, v1) if ((*v3) != 1) let v4 = (v0 + 1), r0(v4);
-      r2(v0, v1, ((*v2) + 1)) <-- r1(v0, v1), if ((*v1) <= 0), r1(v2, v1), r0(v2), if ((*v2) < 6);
-      r2((v0 + 1), v1, 0) <-- if let Some(v0) = Some(0), r2(v0, (v0 + 1), v0) if (v0 <= 6), r1(v0, v1), r2(v2, v3, v4), if (v0 < 6);
-      r3(v0, 1) <-- r1(v0, v1), agg () = not() in r1((*v1), _);
-      r4(v0) <-- r0(v0), agg () = not() in r2(_, (*v0), _);
+      r2(v0, v1, v2) <-- r1(v0, v1), r1(v0, v0), r1(v1, v2);
+      r1(v2, v1) <-- r1(v0, v1), r0(v2);
+      r2(v0, v0, v0) <-- r0(v0) if ((*v0) != 5), r0(0);
+      r2(v3, v2, ((*v2) + 1)) <-- r2(v0, v1, 2), r1(v2, v3), if ((*v2) < 6);
+      r3(v1) <-- r1(v0, v1), r2(v1, v32, v32), agg v21 = count() in r2(_, (*v1), _);
+      r4(v0, 1) <-- r0(v0), agg () = not() in r3((*v0));
+      r5(v1) <-- r2(v0, v1, v2), r0(v1), agg v21 = min(v20) in r2((*v2), v20, (*v0));
    }
    pub struct Inst { p: Prog, pool: Option<ascent::rayon::ThreadPool> }
    pub fn make(pool: Option<usize>) -> Box<dyn Driver> {
@@ -134,8 +136,9 @@ pub mod w20 {
          0 => { let v: Vec<(i64,)> = parse_rows(rows)?; if !append { self.p.r0 = Default::default(); } for x in v { self.p.r0.push(x); } },
          1 => { let v: Vec<(i64,i64,)> = parse_rows(rows)?; if !append { self.p.r1 = Default::default(); } for x in v { self.p.r1.push(x); } },
          2 => { let v: Vec<(i64,i64,i64,)> = parse_rows(rows)?; if !append { self.p.r2 = Default::default(); } for x in v { self.p.r2.push(x); } },
-         3 => { let v: Vec<(i64,i64,)> = parse_rows(rows)?; if !append { self.p.r3 = Default::default(); } for x in v { self.p.r3.push(x); } },
-         4 => { let v: Vec<(i64,)> = parse_rows(rows)?; if !append { self.p.r4 = Default::default(); } for x in v { self.p.r4.push(x); } },
+         3 => { let v: Vec<(i64,)> = parse_rows(rows)?; if !append { self.p.r3 = Default::default(); } for x in v { self.p.r3.push(x); } },
+         4 => { let v: Vec<(i64,i64,)> = parse_rows(rows)?; if !append { self.p.r4 = Default::default(); } for x in v { self.p.r4.push(x); } },
+         5 => { let v: Vec<(i64,)> = parse_rows(rows)?; if !append { self.p.r5 = Default::default(); } for x in v { self.p.r5.push(x); } },
             _ => return None,
          }
          Some(())
@@ -143,7 +146,7 @@ pub mod w20 {
       fn run(&mut self) { match &self.pool { Some(pl) => { let p = &mut self.p; pl.install(|| p.run()) }, None => self.p.run() } }
       fn run_here(&mut self) { self.p.run() }
       fn run_timeout(&mut self, k: usize) -> Option<bool> { let _ = k; None }
-      fn dump(&self) -> String { vec![dump_rel(0, self.p.r0.iter().map(|x| x.render()).collect()), dump_rel(1, self.p.r1.iter().map(|x| x.render()).collect()), dump_rel(2, self.p.r2.iter().map(|x| x.render()).collect()), dump_rel(3, self.p.r3.iter().map(|x| x.render()).collect()), dump_rel(4, self.p.r4.iter().map(|x| x.render()).collect())].join(" | ") }
+      fn dump(&self) -> String { vec![dump_rel(0, self.p.r0.iter().map(|x| x.render()).collect()), dump_rel(1, self.p.r1.iter().map(|x| x.render()).collect()), dump_rel(2, self.p.r2.iter().map(|x| x.render()).collect()), dump_rel(3, self.p.r3.iter().map(|x| x.render()).collect()), dump_rel(4, self.p.r4.iter().map(|x| x.render()).collect()), dump_rel(5, self.p.r5.iter().map(|x| x.render()).collect())].join(" | ") }
       fn iters(&self) -> String { format!("iters {}", self.p.scc_iters.iter().map(|x| x.to_string()).collect::<Vec<_>>().join(" ")) }
    }
 }
